@@ -53,7 +53,31 @@ pub enum Error {
     FailedParse { adapter_type: &'static str, cause: Cause },
     AdapterUnavailable { adapter_type: &'static str, reason: &'static str },
 }
+/// `passage_adapters::Result<T>`; the default parameter keeps `Result<T, E>` usable
+pub type Result<T, E = Error> = std::result::Result<T, E>;
 pub assume_specification<T>[<T as From<T>>::from](t: T) -> (r: T) ensures r == t;
+pub assume_specification<T, E> [Option::<std::result::Result<T, E>>::transpose] (o: Option<std::result::Result<T, E>>) -> (r: std::result::Result<Option<T>, E>)
+    ensures r == (match o { Some(Ok(x)) => Ok::<Option<T>, E>(Some(x)), Some(Err(e)) => Err::<Option<T>, E>(e), None => Ok::<Option<T>, E>(None) });
+/// paths the sources use for these items
+pub mod passage_adapters { pub use super::*; }
+pub mod error { pub use super::Error; }
+pub mod regex { pub use super::RegexError as Error; }
+pub mod uuid { pub use super::UuidError as Error; }
+/// `Uuid::parse_str`: a partial function of the text
+pub uninterp spec fn uuid_parse(s: Seq<char>) -> Option<Uuid>;
+pub struct UuidError {}
+impl Uuid {
+    #[verifier::external_body]
+    pub fn parse_str(s: &str) -> (r: std::result::Result<Uuid, UuidError>)
+        ensures match r { Ok(u) => uuid_parse(s@) == Some(u), Err(_) => uuid_parse(s@) is None },
+    { unimplemented!() }
+}
+/// `Box<dyn std::error::Error>`: only that it can be made from the error types that reach it
+pub struct BoxError {}
+impl From<Error> for BoxError { #[verifier::external_body] fn from(e: Error) -> BoxError { unimplemented!() } }
+impl From<RegexError> for BoxError { #[verifier::external_body] fn from(e: RegexError) -> BoxError { unimplemented!() } }
+impl From<UuidError> for BoxError { #[verifier::external_body] fn from(e: UuidError) -> BoxError { unimplemented!() } }
+impl From<&str> for BoxError { #[verifier::external_body] fn from(e: &str) -> BoxError { unimplemented!() } }
 
 /// what a filter / strategy adapter is told about the connection
 pub struct Ctx { pub client: SocketAddr, pub host: Seq<char>, pub port: u16, pub protocol: i32, pub name: Seq<char>, pub id: Uuid }
@@ -66,18 +90,31 @@ pub open spec fn ctx_of(client_addr: &SocketAddr, server_addr: (&str, u16), prot
 /// against this postcondition with the `filtered` that units/U14/spec.rs writes down from the property statement.
 pub trait FilterAdapter {
     spec fn filtered(&self, c: Ctx, targets: Seq<Target>) -> Option<Seq<Target>>;
-    fn filter(&self, client_addr: &SocketAddr, server_addr: (&str, u16), protocol: Protocol, user: (&str, &Uuid), targets: Vec<Target>) -> (r: std::result::Result<Vec<Target>, Error>)
+    fn filter(&self, client_addr: &SocketAddr, server_addr: (&str, u16), protocol: Protocol, user: (&str, &Uuid), targets: Vec<Target>) -> (r: Result<Vec<Target>>)
         ensures
             match self.filtered(ctx_of(client_addr, server_addr, protocol, user), targets@) { Some(s) => r matches Ok(v) && v@ == s, None => r is Err }, // @cl:C18.filter.result_is_what_the_mechanism_denotes
     ;
 }
 /// passage_adapters::strategy::StrategyAdapter: `selected_ok` relates the candidate list to the verdict
 pub trait StrategyAdapter {
-    spec fn selected_ok(&self, c: Ctx, targets: Seq<Target>, r: std::result::Result<Option<Target>, Error>) -> bool;
-    fn select(&self, client_addr: &SocketAddr, server_addr: (&str, u16), protocol: Protocol, user: (&str, &Uuid), targets: Vec<Target>) -> (r: std::result::Result<Option<Target>, Error>)
+    spec fn selected_ok(&self, c: Ctx, targets: Seq<Target>, r: Result<Option<Target>>) -> bool;
+    fn select(&self, client_addr: &SocketAddr, server_addr: (&str, u16), protocol: Protocol, user: (&str, &Uuid), targets: Vec<Target>) -> (r: Result<Option<Target>>)
         ensures
             self.selected_ok(ctx_of(client_addr, server_addr, protocol, user), targets@, r), // @cl:C18.select.verdict_is_what_the_mechanism_denotes
     ;
+}
+
+/// passage_adapters_grpc::GrpcStrategyAdapter (not a built-in mechanism of C18; its own contract is proved in U10): some strategy
+pub struct GrpcStrategyAdapter { pub id: Ghost<int> }
+pub uninterp spec fn grpc_selected_ok(a: GrpcStrategyAdapter, c: Ctx, targets: Seq<Target>, r: Result<Option<Target>>) -> bool;
+impl StrategyAdapter for GrpcStrategyAdapter {
+    open spec fn selected_ok(&self, c: Ctx, targets: Seq<Target>, r: Result<Option<Target>>) -> bool { grpc_selected_ok(*self, c, targets, r) }
+    #[verifier::external_body]
+    fn select(&self, client_addr: &SocketAddr, server_addr: (&str, u16), protocol: Protocol, user: (&str, &Uuid), targets: Vec<Target>) -> (r: Result<Option<Target>>) { unimplemented!() }
+}
+impl GrpcStrategyAdapter {
+    #[verifier::external_body]
+    pub fn new(address: String) -> (r: Result<GrpcStrategyAdapter>) { unimplemented!() }
 }
 
 } // verus!
